@@ -114,6 +114,20 @@ def classify(prog):
     return sorted(defects)
 
 
+def lacking_ranks(prog):
+    """ranks on which an operation is missing: the source rank of a receive nobody sends to, the destination rank of a
+    send nobody receives (these are the ranks on which find_distributed_partition is documented to raise)"""
+    sends, recvs = comm_terms(prog)
+    sid = {(r, s[2], T.tkey(s[3])) for r, s in sends}
+    rid = {(s[1], r, T.tkey(s[2])) for r, s in recvs}
+    res = set()
+    for k in rid - sid:
+        res.add(k[0])
+    for k in sid - rid:
+        res.add(k[1])
+    return {r for r in res if 0 <= r < prog["R"]}
+
+
 # --------------------------------------------------------------------------
 # fault application
 
